@@ -267,10 +267,34 @@ func init() {
 	shrinkers["be"] = shrinkBE
 }
 
+// retainedErrors: an ErrExpired error handed out earlier keeps reporting the value it was created for, whatever
+// happened to the cache since (the library never changes a stored value in place; the expiry instant may move,
+// ExpireAll re-stamps entries). A caller holds such errors across later operations - Failover does.
+func (r *beRun) retainedErrors(prop string) {
+	for _, rec := range r.recs {
+		if rec.kind != "read" || !rec.done || !rec.expOK {
+			continue
+		}
+
+		v, _, ok := r.bk.expiredItem(rec.err)
+		v = nilTok(rec.key, v)
+
+		if !ok || v != rec.expVal {
+			r.e.out.violate(prop+".retained", r.sc.Backend+" expired-item-changed-after-return", "%s read(%q) returned ErrExpired carrying %v; after the rest of the run the same error object carries (%v, ok=%v): it refers to storage that was reused for something else", rec.id(), rec.key, rec.expVal, v, ok)
+
+			return
+		}
+
+		r.e.out.probe("retained_expired_item_rechecked")
+	}
+}
+
 // seqReach computes reach measures for sequential runs.
 func (r *beRun) seqReach() {
 	out := r.e.out
 	kinds := map[string]int{}
+
+	r.retainedErrors(r.e.sc.Prop)
 
 	for _, rec := range r.recs {
 		k := rec.kind
